@@ -28,7 +28,7 @@ inductive Op where
   | get               -- `h := getWaitCh()`; the handle is kept
   | bcast             -- `broadcast()`
   | set (v : Nat)     -- `x = v`
-deriving DecidableEq, Repr
+deriving DecidableEq, Repr, Hashable
 
 abbrev Prog := List Op
 
@@ -37,7 +37,7 @@ inductive Pred where
   | eq (v : Nat)      -- done when x = v
   | ge (v : Nat)      -- done when x ≥ v
   | err (v : Nat)     -- returns an error when x = v, otherwise not done
-deriving DecidableEq, Repr
+deriving DecidableEq, Repr, Hashable
 
 inductive PRes where
   | done | notyet | error
@@ -51,12 +51,12 @@ def Pred.eval : Pred → Nat → PRes
 /-- which of the three lock-and-call functions -/
 inductive HKind where
   | hold | try | maybe
-deriving DecidableEq, Repr
+deriving DecidableEq, Repr, Hashable
 
 /-- result of `Wait` -/
 inductive WRes where
   | nil | err | canceled | badarg
-deriving DecidableEq, Repr
+deriving DecidableEq, Repr, Hashable
 
 /-- per-call state -/
 inductive TS where
@@ -69,7 +69,7 @@ inductive TS where
   | wInv (p : Pred)                      -- Wait at the top of its loop (just invoked, or woken)
   | wParked (p : Pred) (ch : Nat)        -- blocked in the select on ctx.Done and channel `ch`
   | wRet (r : WRes)                      -- about to return `r`
-deriving DecidableEq, Repr
+deriving DecidableEq, Repr, Hashable
 
 /-- effect of a whole body, executed atomically under the mutex, on `x` and the broadcast state,
 and the handles it obtained (in program order) -/
@@ -141,6 +141,9 @@ def St.norm (s : St) : Nat × Bool × List TS × List Nat × Bool :=
   (s.x, s.bc.cur.isSome, s.th.map (TS.norm s), s.cx, s.dirty)
 
 instance (priority := high) instBEqSt : BEq St := ⟨fun a b => a.norm == b.norm⟩
+
+/-- consistent with `instBEqSt` (used by the hash-indexed checker) -/
+instance instHashableSt : Hashable St := ⟨fun s => hash s.norm⟩
 
 /-- observable events: exactly what the harness logs -/
 inductive Obs where
